@@ -6449,3 +6449,51 @@ def c09_auto_accept_counts_every_delivery(env):
 
 
 REGISTRY.setdefault("C09", []).append(c09_auto_accept_counts_every_delivery)
+
+
+# ---- C17: the heartbeat timer runs with exactly the period it was armed with ----------------------------------
+
+
+def c17_heartbeat_period_is_kept(env):
+    o = Obligation("c17_the_heartbeat_timer_runs_with_the_period_it_was_given", "C17")
+    o.desc = "HeartBeat::new -> IntervalStream::new -> Interval::new_with_period -> tokio::time::interval: the Duration the connection engine computed from the peer's idle-time-out (c17_heartbeat_period_is_the_peers_idle_timeout) reaches the timer unchanged -- it is not clamped, rounded or replaced on the way (a lower bound of, say, one second silences the endpoint for longer than a peer's sub-second time-out)"
+    chain = [
+        (r"^heartbeat::<impl at [^>]*>::new$", r"-> HeartBeat", r"IntervalStream(::<.*>)?::new$|heartbeat::<impl at [^>]*>::new$"),
+        (r"^heartbeat::<impl at [^>]*>::new$", r"-> IntervalStream<", r"Interval>::new_with_period$|::new_with_period$"),
+        (r"^heartbeat::<impl at [^>]*>::new_with_period$", r"-> (tokio::time::)?Interval", r"(^|::)interval(_at)?$"),
+    ]
+    marker = z3.BitVec("period.identity", 64)
+
+    def replay(m):
+        return "hb_gap", (lambda js: js.get("panic") or js["max_gap_ms"] > js["idle_ms"] + js["tolerance_ms"])
+
+    fns = []
+    for pat, sig, nxt in chain:
+        fn = env.fn(pat, sig=sig)
+        fns.append(fn.name)
+        ex = env.executor(max_visits=3)
+        P = mir.Agg("Duration")
+        P["@id"] = marker
+        paths = ex.run(fn, {"_1": P})
+        n = 0
+        for i, p in enumerate(paths):
+            if p.end != "return":
+                continue
+            n += 1
+            nxt_calls = [c for c in p.calls if re.search(nxt, c[0]) and c[0] != fn.name]
+            others = [c for c in p.calls if re.search(r"Duration|::max$|::min$|::clamp$", c[0]) and c not in nxt_calls]
+            short = _short_callee(fn.name) + ("/" + sig[3:].strip("<( ") if sig else "")
+            o.prove(f"{short}:path{i}:hands-the-period-on-once", ex.assumptions + p.cond, z3.BoolVal(len(nxt_calls) == 1), replay=replay)
+            for c in nxt_calls:
+                a = c[1][0] if c[1] else None
+                same = isinstance(a, mir.Agg) and a.get("@id") is not None and a.get("@id").eq(marker)
+                o.prove(f"{short}:path{i}:the-very-period-it-was-given", ex.assumptions + p.cond, z3.BoolVal(bool(same)), replay=replay)
+            o.prove(f"{short}:path{i}:no-arithmetic-on-the-period", ex.assumptions + p.cond, z3.BoolVal(not others), replay=replay)
+        o.cover(f"paths of {_short_callee(fn.name)}", [z3.BoolVal(n > 0)])
+    o.functions = fns
+    o.bounds = ["the three functions between the engine and tokio::time::interval; every path"]
+    o.assumes = ["tokio::time::interval(p) ticks every p"]
+    return [o]
+
+
+REGISTRY.setdefault("C17", []).append(c17_heartbeat_period_is_kept)
